@@ -39,7 +39,7 @@ let tw_of f tok n inv = if tok = "std" then (if inv then std_itw f n else std_tw
 
 (* the CHECKED model (explicit panics, debug profile) must agree with the model that is compared with the crate;
    run for small cases only (it re-checks lengths at every access) *)
-let small n = n <= 512
+let small n = n <= 256
 let agree (a : string) (b : string) = if a = b then a else "model-mismatch checked=" ^ b ^ " total=" ^ a
 
 let mulp f a b = (ops f).FieldOps.fmul a b
